@@ -244,7 +244,28 @@ C11(sn, calls) ==
          /\ ~(IsRevUpdate(c) /\ Det(c) = "labels")
 
 (* C15 - no panic                                                                      *)
-C15(res) == res \in {"ok", "err"}
+C15(res) == res \in {"ok", "err", "died"}      \* "died" is a process death injected by the harness, not a panic
+
+(* C09 - a failed call is reported (per-reconcile clauses; recovery is a history clause) *)
+LaterOK(calls, k, P(_)) == \E j \in (k + 1)..Len(calls) : P(calls[j]) /\ Name(calls[j]) = Name(calls[k]) /\ OK(calls[j])
+\* failures the controller may legitimately absorb without failing the reconcile
+Benign(calls, k) ==
+  LET c == calls[k] IN
+  \/ IsPodPatch(c) /\ Result(c) \in {"NotFound", "NotFoundApplied"}              \* the pod is gone: nothing to adopt / release
+  \/ IsPodPatch(c) /\ Det(c) = "release" /\ Result(c) = "Invalid"
+  \/ IsStatus(c) /\ Result(c) = "Conflict" /\ LaterOK(calls, k, IsStatus)        \* retried from a fresh copy, and it went through
+  \/ IsPodUpdate(c) /\ Result(c) = "Conflict" /\ LaterOK(calls, k, IsPodUpdate)
+  \/ IsRevUpdate(c) /\ Result(c) = "Conflict" /\ LaterOK(calls, k, IsRevUpdate)
+  \/ IsRevCreate(c) /\ Result(c) = "AlreadyExists"                                \* name taken: the existing one is read and compared
+        /\ k < Len(calls) /\ Verb(calls[k + 1]) = "get" /\ Res(calls[k + 1]) = "controllerrevisions"
+        /\ Name(calls[k + 1]) = Name(c) /\ OK(calls[k + 1])
+  \* the re-read after a failed revision update is judged through that update, not on its own
+  \/ Verb(c) = "get" /\ Res(c) = "controllerrevisions" /\ k > 1 /\ IsRevUpdate(calls[k - 1]) /\ ~OK(calls[k - 1])
+C09(sn, calls, res) ==
+  /\ (\E k \in Idx(calls) : ~OK(calls[k]) /\ ~Benign(calls, k)) => res \in {"err", "died"}
+  /\ res = "died" => \E f \in SeqToSet(sn.faults) : f.die          \* only an injected process death ends a reconcile that way
+  \* what a failed or interrupted reconcile leaves behind breaks none of the safety rules
+  /\ C03(sn, calls) /\ C04(sn, calls) /\ C05(sn, calls) /\ C10(sn, calls, res) /\ C11(sn, calls) /\ C12(sn, calls) /\ C13(sn, calls, res)
 
 (* C06 - identity / storage / claims first (per-reconcile clauses)                     *)
 ClaimsOf(sn, i) == {ClaimName(sn.set, sn.set.claims[k], i) : k \in 1..Len(sn.set.claims)}
